@@ -11,7 +11,11 @@ package embed_test
 // computed by the harness from the bytes it wrote itself:
 //  * round trip: embed(b, c) with c non-empty, then read == c, original size == len(b),
 //    strip == b (a refusal with ErrAlreadyEmbedded is accepted only when b itself ends in the
-//    magic marker);
+//    magic marker) — for every way the destination can name its file: distinct (new, existing
+//    larger/smaller), identical string, or the same file under another name (symlink, hard link,
+//    dir/./bin, dir/sub/../bin, relative path, source through the alias); a distinct destination
+//    leaves the source intact; a re-embed in place is either refused and leaves the first
+//    embedding intact, or embeds with the embedded file as its original;
 //  * any file: no reader panics; a config is only ever returned when the file carries a trailer
 //    whose length field lies inside the file, and then it is exactly the bytes the trailer
 //    designates; a reported original size lies inside [0, file size]; a stripped copy is a prefix
@@ -30,6 +34,7 @@ import (
 	"path/filepath"
 	"runtime"
 	"runtime/debug"
+	"strings"
 	"testing"
 
 	"github.com/postalsys/muti-metroo/internal/embed"
@@ -75,6 +80,8 @@ type c36Model struct {
 	Class    string `json:"class"` // structural class of the trailer
 	cfg      []byte // config the trailer designates (valid class only)
 	bin      []byte // the original binary (valid class), the whole file (no-trailer)
+
+	keySuffix string // structural class of the scenario, appended to roundtrip keys
 }
 
 func c36ModelOf(file []byte) c36Model {
@@ -138,6 +145,9 @@ func (h *c36H) readers(phase string, ci int, path string, file []byte, how strin
 	ok := true
 	bad := func(key, detail string) {
 		ok = false
+		if strings.HasPrefix(key, "roundtrip:") {
+			key += m.keySuffix
+		}
 		h.r.Violation(key, phase, ci, fmt.Sprintf("%s [file %d bytes, trailer class %s, length field %d; %s]", detail, m.Size, m.Class, m.L, how), w)
 	}
 	allocCheck := func(fn string, alloc uint64) {
@@ -351,27 +361,92 @@ func TestVerif_C36(t *testing.T) {
 	defer debug.SetGCPercent(debug.SetGCPercent(-1))
 	runtime.GC()
 
-	// (1) round trip
+	// (1) round trip, over every way the destination can name a file: a distinct new file, a
+	// distinct existing file (larger / smaller than the output), the identical string, and the
+	// SAME file under a different name (symlink, hard link, un-normalised spelling, relative
+	// path, source given through the alias). AppendConfig documents that source and destination
+	// may be the same file.
+	sub := filepath.Join(h.dir, "sub")
+	if err := os.Mkdir(sub, 0o755); err != nil {
+		r.Inconclusive("cannot create temp subdirectory: " + err.Error())
+	}
+	cwd, _ := os.Getwd()
 	r.Cases("rt", r.N(1200, 60000), func(ci int, rng *verifkit.Rand) {
 		b, kind := c36Binary(rng)
 		c := c36Config(rng)
 		src := h.write("bin", b, verifkit.Pick(rng, []os.FileMode{0o755, 0o644, 0o700}))
-		dst := filepath.Join(h.dir, "bin.embedded")
-		inPlace := rng.Intn(4) == 0
-		if inPlace {
-			dst = src
-		}
+		link := filepath.Join(h.dir, "bin.alias")
+		other := filepath.Join(h.dir, "bin.embedded")
 		defer os.Remove(src)
-		defer os.Remove(dst)
-		w := map[string]any{"binary_len": len(b), "binary_kind": kind, "config_len": len(c), "in_place": inPlace, "binary_tail_hex": c36Tail(b)}
+		defer os.Remove(link)
+		defer os.Remove(other)
 		// a plain binary (no trailer) strips to itself and reads as "no config"
 		if kind != "ends-in-magic" || len(b) < embed.FooterSize {
 			if !h.readers("rt", ci, src, b, "plain binary ("+kind+") before embedding", &c36Model{Class: "no-trailer", bin: b}) {
 				return
 			}
 		}
+		// choose how the destination names its file
+		srcArg, dstArg := src, other
+		alias := verifkit.Pick(rng, []string{"distinct", "distinct", "distinct", "distinct-existing-larger", "distinct-existing-smaller",
+			"same-string", "same-string", "symlink", "hardlink", "dot-spelling", "dotdot-spelling", "relative-path", "source-via-symlink", "source-dot-spelling"})
+		sameFile := func(a, b string) bool {
+			sa, ea := os.Stat(a)
+			sb, eb := os.Stat(b)
+			return ea == nil && eb == nil && os.SameFile(sa, sb)
+		}
+		skip := func(why string) {
+			r.Add("alias_kind_unavailable:"+alias, 1)
+			_ = why
+			alias, srcArg, dstArg = "distinct", src, other
+		}
+		switch alias {
+		case "distinct-existing-larger":
+			h.write("bin.embedded", rng.Bytes(len(b)+len(c)+16+1+rng.Intn(5000)), 0o600)
+		case "distinct-existing-smaller":
+			h.write("bin.embedded", rng.Bytes(rng.Intn(len(b)+len(c)+16)), 0o600)
+		case "same-string":
+			dstArg = src
+		case "symlink", "source-via-symlink":
+			if err := os.Symlink(src, link); err != nil || !sameFile(link, src) {
+				skip("symlink refused")
+			} else if alias == "symlink" {
+				dstArg = link
+			} else {
+				srcArg, dstArg = link, src
+			}
+		case "hardlink":
+			if err := os.Link(src, link); err != nil || !sameFile(link, src) {
+				skip("hard link refused")
+			} else {
+				dstArg = link
+			}
+		case "dot-spelling":
+			dstArg = h.dir + string(filepath.Separator) + "." + string(filepath.Separator) + "bin"
+		case "dotdot-spelling":
+			dstArg = sub + string(filepath.Separator) + ".." + string(filepath.Separator) + "bin"
+		case "source-dot-spelling":
+			srcArg, dstArg = h.dir+string(filepath.Separator)+"."+string(filepath.Separator)+"bin", src
+		case "relative-path":
+			if rel, err := filepath.Rel(cwd, src); err != nil || filepath.IsAbs(rel) || !sameFile(rel, src) {
+				skip("no relative spelling")
+			} else {
+				dstArg = rel
+			}
+		}
+		aliased := alias != "distinct" && alias != "distinct-existing-larger" && alias != "distinct-existing-smaller"
+		if aliased && (srcArg == dstArg && alias != "same-string" || !sameFile(srcArg, dstArg)) {
+			skip("alias does not name the same file")
+			aliased = false
+		}
+		r.Add("dest:"+alias, 1)
+		suffix := ""
+		if aliased && alias != "same-string" {
+			suffix = "@same-file-different-name" // structural class: destination is the source under another name
+		}
+		w := map[string]any{"binary_len": len(b), "binary_kind": kind, "config_len": len(c), "destination": alias, "binary_tail_hex": c36Tail(b)}
 		var err error
-		_, pv, stk := h.measure(func() { err = embed.AppendConfig(src, dst, c) })
+		_, pv, stk := h.measure(func() { err = embed.AppendConfig(srcArg, dstArg, c) })
 		if pv != nil {
 			r.Violation("panic:AppendConfig", "rt", ci, fmt.Sprintf("AppendConfig panicked: %v\n%s", pv, c36Stack(stk)), w)
 			return
@@ -379,24 +454,59 @@ func TestVerif_C36(t *testing.T) {
 		if err != nil {
 			if kind == "ends-in-magic" && len(b) >= embed.FooterSize {
 				r.Add("append_refused_binary_ends_in_magic", 1)
-				r.Eval(fmt.Sprintf("rt-refused|%x", b), len(b) >= embed.FooterSize)
+				r.Eval(fmt.Sprintf("rt-refused|%s|%x", alias, b), len(b) >= embed.FooterSize)
 				return
 			}
-			r.Violation("roundtrip:append-error", "rt", ci, "AppendConfig fails for a binary that carries no trailer: "+err.Error(), w)
+			r.Violation("roundtrip:append-error"+suffix, "rt", ci, fmt.Sprintf("AppendConfig(destination %s) fails for a binary that carries no trailer: %v", alias, err), w)
 			return
 		}
-		file, rerr := os.ReadFile(dst)
+		file, rerr := os.ReadFile(dstArg)
 		if rerr != nil {
-			r.Violation("roundtrip:append-no-output", "rt", ci, "AppendConfig returned nil but the output is unreadable: "+rerr.Error(), w)
+			r.Violation("roundtrip:append-no-output"+suffix, "rt", ci, "AppendConfig returned nil but the output is unreadable: "+rerr.Error(), w)
 			return
 		}
-		if h.readers("rt", ci, dst, file, fmt.Sprintf("AppendConfig(binary %d bytes %s, config %d bytes, in_place=%v)", len(b), kind, len(c), inPlace),
-			&c36Model{Class: "valid", HasMagic: true, L: uint64(len(c)), cfg: c, bin: b}) {
-			r.Add("roundtrip_ok", 1)
+		how := fmt.Sprintf("AppendConfig(binary %d bytes %s, config %d bytes, destination %s)", len(b), kind, len(c), alias)
+		ok := h.readers("rt", ci, dstArg, file, how, &c36Model{Class: "valid", HasMagic: true, L: uint64(len(c)), cfg: c, bin: b, keySuffix: suffix})
+		if !aliased {
+			// embedding into another file leaves the source as it was
+			if now, e := os.ReadFile(src); e != nil || !bytes.Equal(now, b) {
+				ok = false
+				r.Violation("roundtrip:source-modified", "rt", ci, fmt.Sprintf("source binary (%d bytes) is no longer intact after embedding into a distinct file (%s): now %d bytes, err=%v", len(b), alias, len(now), e), w)
+			}
 		}
-		r.Eval(fmt.Sprintf("rt|%x|%x", b, c), true)
+		// re-embedding over the embedded binary in place: either refused, leaving the first
+		// embedding intact, or a new embedding whose original is the embedded file
+		if ok && rng.Intn(4) == 0 {
+			c2 := c36Config(rng)
+			reDst := dstArg
+			if aliased && rng.Bool() {
+				reDst = srcArg // through the other name of the same file
+			}
+			var err2 error
+			_, pv, stk = h.measure(func() { err2 = embed.AppendConfig(dstArg, reDst, c2) })
+			switch {
+			case pv != nil:
+				ok = false
+				r.Violation("panic:AppendConfig", "rt", ci, fmt.Sprintf("AppendConfig panicked on re-embedding: %v\n%s", pv, c36Stack(stk)), w)
+			case err2 != nil:
+				r.Add("reembed_refused", 1)
+				now, _ := os.ReadFile(dstArg)
+				ok = h.readers("rt", ci, dstArg, now, how+", then a refused re-embed in place", &c36Model{Class: "valid", HasMagic: true, L: uint64(len(c)), cfg: c, bin: b, keySuffix: "@after-refused-reembed"})
+			default:
+				r.Add("reembed_accepted", 1)
+				now, _ := os.ReadFile(dstArg)
+				ok = h.readers("rt", ci, dstArg, now, how+", then an accepted re-embed in place", &c36Model{Class: "valid", HasMagic: true, L: uint64(len(c2)), cfg: c2, bin: file, keySuffix: "@after-reembed"})
+			}
+		}
+		if ok {
+			r.Add("roundtrip_ok", 1)
+			if aliased && alias != "same-string" {
+				r.Add("roundtrip_ok_same_file_different_name", 1)
+			}
+		}
+		r.Eval(fmt.Sprintf("rt|%s|%x|%x", alias, b, c), true)
 		if r.NeedSample() && len(b) < 64 && len(c) < 64 {
-			r.Sample(map[string]any{"binary_hex": verifkit.Hex(b), "config_hex": verifkit.Hex(c), "embedded_file_hex": verifkit.Hex(file), "read_equal": true, "strip_equal": true})
+			r.Sample(map[string]any{"binary_hex": verifkit.Hex(b), "config_hex": verifkit.Hex(c), "destination": alias, "embedded_file_hex": verifkit.Hex(file), "read_equal": ok, "strip_equal": ok})
 		}
 	})
 
@@ -487,6 +597,8 @@ func TestVerif_C36(t *testing.T) {
 	})
 
 	r.Require("roundtrip_ok", int64(r.N(1200, 60000)*7/10))
+	r.Require("roundtrip_ok_same_file_different_name", int64(r.N(1200, 60000)/6))
+	r.Require("reembed_refused", int64(r.N(1200, 60000)/10))
 	r.Require("append_refused_binary_ends_in_magic", 5)
 	r.Require("hostile_length_files", int64(r.N(600, 20000)))
 	r.Require("files_length-exceeds-file", 50)
